@@ -355,6 +355,8 @@ def Spec.classifiedLoops : List Classified := [
   ⟨"eval/eval.go | State.evalForList | for ; object.Len(list) > 0; ", polls, "evalInternal(fe.Body) per iteration (Rest(list) costs O(len) per iteration)"⟩,
   ⟨"eval/eval.go | State.evalIntegerInfixExpression | for i := leftVal; i < rightVal; i++", boundedByGuardedAllocation,
     "left:right: MakeObjectSlice(right-left) passed the guard; when the subtraction wraps, left > right and the loop body never runs (range_sound)"⟩,
+  ⟨"eval/eval.go | State.evalInternal | range elements", boundedByContainer,
+    "array literal: the slice evalExpressions just produced (one entry per element expression of the source, each evaluated — and polled — before); the body is object.Value(el), itself at most 100 reference steps"⟩,
   ⟨"eval/eval.go | State.evalMapLiteral | range node.Order", polls, "s.Eval(keyNode), s.Eval(valueNode)"⟩,
   ⟨"eval/eval.go | State.evalPrintLogError | range node.Parameters", polls, "evalInternal(v) per parameter"⟩,
   ⟨"eval/eval.go | State.evalStatements | range stmts", polls, "evalInternal(statement)"⟩,
